@@ -114,7 +114,7 @@ The file is `known_findings.json`; nothing is added to it at run time.
 
 SEEDS_INTRO = """Each change was written by a fresh sub-agent that saw only the property text and its own scratch worktree, confirmed by
 `tools/confirm_seed.sh` (demonstration passes on the pristine tree, fails with the patch, no new failure in the pinned suite) and stored under
-`seeded/<id>/`. Thirteen rounds so far, 433 stored changes (the number is recomputed below from the directory). The share a round's first sweep missed stayed between a quarter and 40 per cent up to the last round: the agents are told what was already taken, so every round comes through new entry points, input types and object lifetimes - which is the reason to keep running rounds rather than a sign that the checks do not improve. `tools/psweep.sh` applies every stored change to a scratch copy of /repo (several in parallel; `tools/seedsweep.sh`
+`seeded/<id>/`. Fourteen rounds (the last one for ten properties), 433 stored changes (the number is recomputed below from the directory). The share a round's first sweep missed stayed between a quarter and 40 per cent up to the last round: the agents are told what was already taken, so every round comes through new entry points, input types and object lifetimes - which is the reason to keep running rounds rather than a sign that the checks do not improve. `tools/psweep.sh` applies every stored change to a scratch copy of /repo (several in parallel; `tools/seedsweep.sh`
 does the same on /repo's working tree, one at a time), runs the owning check and removes the copy; at the time of writing every stored change is
 reported as VIOLATION by the quick tier of its check, with a failing input replayed on the real code. Where a check first missed a change it was
 strengthened - the generator was the gap nearly every time, an oracle clause a few times; no oracle was loosened:
@@ -230,6 +230,12 @@ strengthened - the generator was the gap nearly every time, an oracle clause a f
   that enter the digest; C18 the hand-over through the constructor (`Response(protocol=request.protocol)`), instances of the status classes parsing another
   status; C19 a weight written twice, weights with stray quotes. Two older changes were caught under one seed only (C03-20, before that C06-6 / C06-18): their
   triggers are enumerated now, and the whole store is swept under two seeds.
+
+* round 14 (ten properties only, ids -26 .. -28; 7 of 20 missed at first): C04 list / generator pieces of exactly k x 64 KiB under chunked framing, an
+  empty reason phrase set by the caller; C08 `message.headers = mapping` from a plain `CaseInsensitiveDict` / dict; C09 letter case in the values of cookie
+  attributes (`Domain=Example.COM`), multipart boundaries of every permitted length (a constructor that refuses a plain boundary is a violation, not "no round
+  trip to judge"); C14 a `Body` that was decoded, emptied and filled again (`write()` / `parse()`); C16 one credential as octets and the other as text, in
+  either order.
 
 Stored patches are rebased when a `fix:` commit touches the same lines (noted in their notes.txt). Six changes are kept under `seeded/rejected/` and are not
 counted: C04-2, C12-1-superseded and C11-11 became harmless through the repairs F50 / F60 / F64 (their demonstrations pass with the patch applied); C06-9 and C07-10
